@@ -182,9 +182,9 @@ def _check(case, cfg, files_raw, paths, d, res, ctx) -> None:  # noqa: ANN001
                     errs.append(f"cat {st[ct]!r} != {e.cat!r}")
             except (IndexError, TypeError):
                 errs.append(f"name/cat id ({nm},{ct}) does not decode")
-            if pid != e.pid:
+            if not _same_label(pid, e.pid):
                 errs.append(f"pid {pid!r} != {e.pid!r}")
-            if tid != e.tid:
+            if not _same_label(tid, e.tid):
                 errs.append(f"tid {tid!r} != {e.tid!r}")
             # with rounding disabled the columns are float: the loader computes ts - min_ts once, adding min_ts back need not
             # give the file's double again (9.0 + 6.999 != 15.999), so the loader's own operation is accepted as well
@@ -209,6 +209,15 @@ def _check(case, cfg, files_raw, paths, d, res, ctx) -> None:  # noqa: ANN001
         # inward rounding: containment / disjointness carried over (loaded values vs original spans)
         if frac[r] and not cfg["no_round"]:
             _pairwise(res, r, df, exp, min_ts if loaded else 0)
+
+
+def _same_label(got, want) -> bool:  # noqa: ANN001
+    """pid / tid as loaded vs. as in the file; a label that the file omits (or gives as null) is a missing value in the frame"""
+    if want is None:
+        return got is None or (isinstance(got, float) and got != got)
+    if isinstance(got, float) and got == got and isinstance(want, int) and not isinstance(want, bool):
+        return got == want          # a column with missing labels holds floats
+    return got == want and type(got) is type(want) or (isinstance(got, (int, float)) and isinstance(want, (int, float)) and not isinstance(want, bool) and got == want)
 
 
 def _pairwise(res, r, df, exp, shift) -> None:  # noqa: ANN001
